@@ -131,6 +131,43 @@ def _verdict_chunk(args):
                         if len(out["violations"]) < 3:
                             out["violations"].append(dict(case="report", detail=f"message {msg!r}: reported pairs {sorted(got_c)} / missing { {k: sorted(v) for k, v in got_m.items()} }, "
                                                           f"reference {sorted(ref_c)} / { {k: sorted(v) for k, v in ref_m.items()} }, unparsed {bad}", input=inp))
+            # a regex subject / object stands for the modules whose names it matches FROM THE START (re.match): a pattern with an alternative that occurs
+            # only further right in other modules' names selects nothing more; verdict and reported pairs are those of the rule naming the matched module
+            cand = [m for m in mods if m.count(".") >= 1]
+            for _ in range(2):
+                a = rng.choice(cand)
+                tails = sorted({m.rsplit(".", 1)[1] for m in mods if "." in m and m != a and not m.startswith(a + ".") and not a.startswith(m + ".")})
+                if not tails:
+                    continue
+                t = rng.choice(tails)
+                rx = re.escape(a) + "$|" + re.escape(t) + "$|\\." + re.escape(t) + "$"
+                if [m for m in mods if re.match(rx, m)] != [a]:
+                    continue
+                others_ = [m for m in cand if unrelated([a, m])]
+                if not others_:
+                    continue
+                o = rng.choice(others_)
+                for side in ("subject", "object"):
+                    for imp in (True, False):
+                        for exc in (False, True):
+                            S_rx, O_rx = ([("regex", rx)], [("name", o)]) if side == "subject" else ([("name", o)], [("regex", rx)])
+                            S_nm, O_nm = ([("name", a)], [("name", o)]) if side == "subject" else ([("name", o)], [("name", a)])
+                            if not no_parent_self_import(imports, S_nm + O_nm):
+                                continue
+                            kind, msg = outcome(make_rule(S_rx, "should_not", imp, exc, O_rx), arch)
+                            want = doc_verdict(mods, imports, S_nm, "should_not", imp, exc, O_nm)
+                            out["cases"] += 1
+                            inp = dict(tree=tree, imports=[list(p) for p in listed], regex=rx, regex_side=side, matched=a, other=o, verb="should_not", import_=imp, except_=exc)
+                            if kind == "error" or (kind == "pass") != want:
+                                if len(out["violations"]) < 3:
+                                    out["violations"].append(dict(case="verdict-regex", detail=f"regex {rx!r} ({side}) matches only {a!r} from the start; real outcome {kind} ({msg}); "
+                                                                  f"the rule naming {a!r} is documented to {'pass' if want else 'fail'}", input=inp))
+                            elif check_report and kind == "fail":
+                                got_c, _, bad = parse_message(msg)
+                                ref_c, _ = reference_report(mods, imports, S_nm, "should_not", imp, exc, O_nm)
+                                if got_c != ref_c:
+                                    if len(out["violations"]) < 3:
+                                        out["violations"].append(dict(case="report-regex", detail=f"regex {rx!r} ({side}) matches only {a!r} from the start; message {msg!r} reports {sorted(got_c)}, reference {sorted(ref_c)}", input=inp))
             # the two 'anything' aliases (single and batched unrelated subjects)
             for imp in (True, False):
                 # ('sub modules of X ... anything' also judges X's own imports: documentation ambiguous, not claimed here;
@@ -207,9 +244,23 @@ def rerun_verdict(inp):
     """Replay of a recorded case: real outcome vs documented verdict (and report when the rule fails)."""
     mods = TREES[inp["tree"]]
     listed = [tuple(p) for p in inp["imports"]]
-    S = [tuple(x) for x in inp["subjects"]]
     arch = build_arch(mods, listed)
     imports = sorted(arch_snapshot(arch)[1])
+    if inp.get("regex"):
+        a, o, side = inp["matched"], inp["other"], inp["regex_side"]
+        S_rx, O_rx = ([("regex", inp["regex"])], [("name", o)]) if side == "subject" else ([("name", o)], [("regex", inp["regex"])])
+        S_nm, O_nm = ([("name", a)], [("name", o)]) if side == "subject" else ([("name", o)], [("name", a)])
+        kind, msg = outcome(make_rule(S_rx, "should_not", inp["import_"], inp["except_"], O_rx), arch)
+        want = doc_verdict(mods, imports, S_nm, "should_not", inp["import_"], inp["except_"], O_nm)
+        ok = kind != "error" and (kind == "pass") == want
+        text = f"regex rule: real outcome {kind} {msg!r}; the rule naming {a!r} is documented to {'pass' if want else 'fail'}"
+        if ok and kind == "fail":
+            got_c, _, _ = parse_message(msg)
+            ref_c, _ = reference_report(mods, imports, S_nm, "should_not", inp["import_"], inp["except_"], O_nm)
+            ok = got_c == ref_c
+            text += f"; reported {sorted(got_c)}, reference {sorted(ref_c)}"
+        return ok, text
+    S = [tuple(x) for x in inp["subjects"]]
     if inp.get("anything"):
         kind, msg = outcome(make_rule(S, "should_not", inp["import_"], False, None, anything=True), arch)
         I = set(imports) if inp["import_"] else {(b, a) for a, b in imports}
@@ -374,7 +425,9 @@ def _regexes(mods, rng):
     names = [m for m in mods if "." in m]
     esc = lambda s: s.replace(".", r"\.")
     a, b = rng.sample(names, 2)
-    return [esc(a) + "$", esc(a), a, "r", "(" + esc(a) + "|" + esc(b) + ")$", r".*x$", r"r\.[ab]$", r"r\.a.*", r".*\.[xy]$", r"r\.zzz"]
+    return [esc(a) + "$", esc(a), a, "r", "(" + esc(a) + "|" + esc(b) + ")$", r".*x$", r"r\.[ab]$", r"r\.a.*", r".*\.[xy]$", r"r\.zzz",
+            # patterns that occur only further right in module names: a regex filter matches from the START of the name, so these select nothing
+            esc(a.split(".", 1)[1]) + "$", r"\." + esc(b.rsplit(".", 1)[1]) + "$"]
 
 
 def _expand(mods, rx):
